@@ -33,6 +33,10 @@ fn main() {
         cases.push(make_case(&[3, 5, 2], true, vec![ReadExact(2), Seek(3, 0), Read(4)]));
         cases.push(make_case(&[3, 5, 2], true, vec![ReadExact(1), SeekIndex(4), ReadExact(2), SeekIndex(3), ReadExact(7), SeekIndex(10), Read(1), SeekIndex(0), ReadToEnd]));
         cases.push(make_case(&[3, 0, 4], false, vec![SeekIndex(3), ReadExact(2), SeekIndex(7), Read(1), SeekIndex(2), ReadToEnd]));
+        // seek onto empty blocks (one and two in a row), then read across the next block boundaries: the
+        // positions reported after the landed block must still be the sync reader's
+        cases.push(make_case(&[3, 0, 4, 2], true, vec![ReadExact(3), Seek(1, 0), ReadExact(5), ReadExact(1), ReadToEnd]));
+        cases.push(make_case(&[3, 0, 0, 4, 2, 1], true, vec![Seek(1, 0), ReadExact(4), ReadExact(1), Seek(2, 0), ReadExact(5), FillConsume(1), ReadToEnd]));
         let workers = [2usize, 1, 3];
         let choose = [PollMode::Choose];
         let uniform = [PollMode::OneByte, PollMode::PendingEvery, PollMode::Irregular, PollMode::Ready];
